@@ -7,6 +7,7 @@
 package sim
 
 import (
+	apierrors "k8s.io/apimachinery/pkg/api/errors"
 	"context"
 	"fmt"
 	"sort"
@@ -165,11 +166,17 @@ func bumpRV(o metav1.Object) {
 
 // rawUpdate writes the object straight into the store (environment writes:
 // kubelet, scheduler, the API server's own bookkeeping).
-func (c *Cluster) rawUpdate(gvk schema.GroupVersionKind, obj client.Object) {
+// rawUpdate writes an object the environment changed. It reports false when the object vanished between the
+// environment's read and this write (only possible while controllers run concurrently: the environment lost a race).
+func (c *Cluster) rawUpdate(gvk schema.GroupVersionKind, obj client.Object) bool {
 	bumpRV(obj)
 	if err := c.tracker.Update(gvrOf(gvk), obj, obj.GetNamespace()); err != nil {
+		if apierrors.IsNotFound(err) {
+			return false
+		}
 		panic(fmt.Sprintf("sim: raw update %s %s/%s: %v", gvk.Kind, obj.GetNamespace(), obj.GetName(), err))
 	}
+	return true
 }
 
 func (c *Cluster) rawDelete(gvk schema.GroupVersionKind, ns, name string) {
